@@ -1655,6 +1655,49 @@ def generics_family(tier, seed):
                                   ("B", ["T", "U"], [("A", ["T"]), ("M", ["U"])], {"own": "Dict[T, U]"})],
                       "queries": ["B[int, str]", "B[str, float]"]},
     }
+    if tier != "quick":
+        import random
+        rnd = random.Random(seed + 16)
+        CONC = ["int", "str", "bool", "float", "Decimal", "bytes"]
+        TV = ["T", "U", "V"]
+
+        def texpr(params):
+            base = rnd.choice(params + CONC) if params else rnd.choice(CONC)
+            c = rnd.random()
+            if c < 0.55:
+                return base
+            if c < 0.7:
+                return f"List[{base}]"
+            if c < 0.8:
+                return f"Optional[{base}]"
+            return f"Dict[str, {base}]"
+        for i in range(120):
+            classes = []
+            depth = rnd.randint(1, 4)
+            fcount = 0
+            for lvl in range(depth):
+                name = f"K{lvl}"
+                params = rnd.sample(TV, rnd.randint(0 if lvl > 0 else 1, 2))
+                bases = []
+                if lvl > 0:
+                    pname, pparams, _, _ = classes[-1]
+                    bases = [(pname, [texpr(params) for _ in pparams])]
+                fields = {}
+                for _ in range(rnd.randint(0 if lvl > 0 else 1, 2)):
+                    # sometimes re-annotate an inherited field (shadowing)
+                    inherited = [f for c in classes for f in c[3]]
+                    if inherited and rnd.random() < 0.25:
+                        fname = rnd.choice(inherited)
+                    else:
+                        fname = f"f{fcount}"
+                        fcount += 1
+                    fields[fname] = texpr(params)
+                classes.append((name, params, bases, fields))
+            queries = []
+            for name, params, _, _ in classes[-2:]:
+                for _ in range(2):
+                    queries.append(f"{name}[{', '.join(rnd.choice(CONC) for _ in params)}]" if params else name)
+            specs[f"rand{i}"] = {"classes": classes, "queries": sorted(set(queries))}
     for sname, spec in specs.items():
         src = GENERIC_PRELUDE
         for name, params, bases, fields in spec["classes"]:
